@@ -563,6 +563,76 @@ func TestManyRunsInsideOneCallee(t *testing.T) {
 	evid.Exhaustive("number of runs held inside the used script at once x mix of callers", total)
 }
 
+// TestPrintfOutputIsContiguous: standard output is one of the places a run leaves its result. Several goroutines run
+// scripts whose printf calls print long texts (beyond 4096 and 65536 bytes) at the same time, one letter per goroutine:
+// every line that arrives consists of one letter and has the length that was printed - the text of one call is never cut
+// by the text of another - and every goroutine's lines are all there, as when the runs are executed alone.
+func TestPrintfOutputIsContiguous(t *testing.T) {
+	set := map[string]string{"main.p": "printf(\"%s\\n\", big)\nuse(\"lib.p\")\nprintf(\"%v%v\\n\", big, big)", "lib.p": "printf(\"%s\\n\", big)"}
+	ok, errs, crash := impl.LoadV1(set, v1call, v1check)
+	if crash != nil || len(errs) > 0 {
+		t.Fatalf("harness: %v %v", errs, crash)
+	}
+	const G, R = 8, 6
+	n := 0
+	for _, size := range []int{100, 4097, 20000, 70000} {
+		f, err := os.CreateTemp("", "c16stdout")
+		if err != nil {
+			t.Fatalf("harness: %v", err)
+		}
+		old := os.Stdout
+		os.Stdout = f
+		var wg sync.WaitGroup
+		var mu sync.Mutex
+		var failure string
+		for g := 0; g < G; g++ {
+			wg.Add(1)
+			go func(g int) {
+				defer wg.Done()
+				big := strings.Repeat(string(rune('a'+g)), size)
+				for r := 0; r < R; r++ {
+					pt := impl.NewPoint("m", nil, map[string]any{"big": big})
+					rerr, crash := impl.RunV1(ok["main.p"], pt, nil)
+					impl.ReleasePoint(pt)
+					if rerr != nil || crash != nil {
+						mu.Lock()
+						failure = fmt.Sprintf("run failed: %v %v", rerr, crash)
+						mu.Unlock()
+					}
+				}
+			}(g)
+		}
+		wg.Wait()
+		os.Stdout = old
+		_ = f.Close()
+		data, _ := os.ReadFile(f.Name())
+		_ = os.Remove(f.Name())
+		rp := map[string]any{"scripts": set, "goroutines": G, "runs_each": R, "text_bytes": size}
+		if failure != "" {
+			rk.Fail(t, "printf-contiguous", rp, "%s", failure)
+		}
+		count := map[byte]int{}
+		lines := strings.Split(strings.TrimSuffix(string(data), "\n"), "\n")
+		for li, line := range lines {
+			if len(line) != size && len(line) != 2*size {
+				rk.Fail(t, "printf-contiguous", rp, "line %d of the captured standard output has %d bytes; every printf call printed %d or %d bytes and a line end (%d goroutines printing at the same time)", li+1, len(line), size, 2*size, G)
+			}
+			if strings.Trim(line, line[:1]) != "" {
+				rk.Fail(t, "printf-contiguous", rp, "line %d of the captured standard output mixes the texts of two printf calls (letters %q ... ): the text of one call was cut by another goroutine's", li+1, clip(strings.Trim(line, line[:1])))
+			}
+			count[line[0]]++
+		}
+		for g := 0; g < G; g++ {
+			if count[byte('a'+g)] != 3*R {
+				rk.Fail(t, "printf-contiguous", rp, "goroutine %d made %d printf calls, %d of its lines arrived", g, 3*R, count[byte('a'+g)])
+			}
+		}
+		evid.Case(fmt.Sprintf("printf-contiguous/%d", size), size > 4096, "printf-output-under-concurrency")
+		n += G * R * 3
+	}
+	evid.Exhaustive("text size x 8 goroutines x 6 runs x 3 printf calls, captured standard output", n)
+}
+
 func TestReplays(t *testing.T) {
 	files, _ := filepath.Glob(filepath.Join(evid.Dir(), "replays", prop, "*.json"))
 	if r := os.Getenv("VERIF_REPLAY"); r != "" {
